@@ -24,8 +24,8 @@ pub enum Shape2 {
 #[derive(Clone, Debug, Serialize, Deserialize)]
 pub enum Case {
     /// angle in degrees, translation as a fraction of the shape size; guess is a second small perturbation
-    A2 { shape: Shape2, scale: f64, pose: Iso2D, fracs: Vec<f64>, angle: f64, t: P2, guess: Option<(f64, P2)>, honesty: bool },
-    A3 { kind: MeshKind, pose: Iso3D, samples: Vec<(f64, f64, f64)>, axis: P3, angle: f64, t: P3, guess: Option<(P3, f64, P3)>, to_plane: bool, honesty: bool },
+    A2 { shape: Shape2, scale: f64, pose: Iso2D, fracs: Vec<f64>, angle: f64, t: P2, guess: Option<(f64, P2)>, honesty: bool, #[serde(default)] at_solution: bool },
+    A3 { kind: MeshKind, pose: Iso3D, samples: Vec<(f64, f64, f64)>, axis: P3, angle: f64, t: P3, guess: Option<(P3, f64, P3)>, to_plane: bool, honesty: bool, #[serde(default)] at_solution: bool },
 }
 
 fn shape2() -> BoxedStrategy<Shape2> {
@@ -50,31 +50,37 @@ impl Property for C07 {
     type Case = Case;
     const ID: &'static str = "C07";
     fn rule() -> &'static str {
-        "2D: closed reference curves with enough features to fix 3 degrees of freedom (star polygons, L-shapes, rectangles with a notch; size 1e-1..1e2; any pose) with 12-200 sample points exactly on the curve; 3D: boxes, skewed prisms and octahedra in any pose with 200-800 points from the harness's own area-weighted sampler. Recovery family: displacement about the shape centroid of up to 3 deg / 2 % of the size (2D, at least 40 points, a sample set whose normal matrix is well conditioned, at most a tenth of the samples matched to a wrong edge at the start), 5 deg / 3 % (3D), starting from the identity or a second small perturbation, both distance modes: the returned transform composed with the displacement must be the identity to 1e-4 (angle in radians, shift relative to the size). Honesty family: displacements up to 40 deg / 30 %: whenever the solver reports success the i-th residual must equal the mode-specific distance recomputed by exhaustive scan from the returned transform alone, the average must match, and the sum of squares must not exceed its value at the start. Non-trivial: rotation > 1 deg and translation > 1 % (recovery); success with a final sum of squares > 1e-6 size^2 (honesty). Distinct = distinct canonical JSON."
+        "2D: closed reference curves with enough features to fix 3 degrees of freedom (star polygons, L-shapes, rectangles with a notch; size 1e-1..1e2; any pose) with 12-200 sample points exactly on the curve; 3D: boxes, skewed prisms and octahedra in any pose with 200-800 points from the harness's own area-weighted sampler. Recovery family: displacement about the shape centroid of up to 3 deg / 2 % of the size (2D, at least 40 points, a sample set whose normal matrix is well conditioned, at most a tenth of the samples matched to a wrong edge at the start), 5 deg / 3 % (3D), starting from the identity or a second small perturbation, both distance modes: the returned transform composed with the displacement must be the identity to 1e-4 (angle in radians, shift relative to the size). Honesty family: displacements up to 40 deg / 30 %: whenever the solver reports success the i-th residual must equal the mode-specific distance recomputed by exhaustive scan from the returned transform alone, the average must match, and the sum of squares must not exceed its value at the start. Already-aligned family (4 %): the samples are the reference's own vertices, zero displacement, identity start - every residual is exactly zero at the start and the identity must come back. Non-trivial: rotation > 1 deg and translation > 1 % (recovery); success with a final sum of squares > 1e-6 size^2 (honesty). Distinct = distinct canonical JSON."
     }
     fn cases(t: Tier) -> u32 {
         t.pick(80_000, 1_000_000)
     }
     fn expected_labels() -> Vec<&'static str> {
-        vec!["recover2", "recover3", "honest2", "honest3", "to_plane", "to_point", "with_guess", "nonzero_residual"]
+        vec!["recover2", "recover3", "honest2", "honest3", "to_plane", "to_point", "with_guess", "nonzero_residual", "at_solution"]
     }
     fn strategy(_t: Tier) -> BoxedStrategy<Case> {
-        let a2 = (shape2(), logu(-1.0, 2.0), iso2(100.0), prop::collection::vec(unif(0.0, 1.0), 40..200), any::<bool>(), unif(-1.0, 1.0), (unif(-1.0, 1.0), unif(-1.0, 1.0)), prop::option::of((unif(-1.0, 1.0), (unif(-1.0, 1.0), unif(-1.0, 1.0)))))
-            .prop_map(|(shape, scale, pose, fracs, honesty, a, t, guess)| {
+        let a2 = (shape2(), logu(-1.0, 2.0), iso2(100.0), prop::collection::vec(unif(0.0, 1.0), 40..200), any::<bool>(), unif(-1.0, 1.0), (unif(-1.0, 1.0), unif(-1.0, 1.0)), prop::option::of((unif(-1.0, 1.0), (unif(-1.0, 1.0), unif(-1.0, 1.0)))), prop::bool::weighted(0.04))
+            .prop_map(|(shape, scale, pose, fracs, honesty, a, t, guess, at_solution)| {
+                if at_solution {
+                    return Case::A2 { shape, scale, pose, fracs, angle: 0.0, t: [0.0, 0.0], guess: None, honesty: false, at_solution };
+                }
                 let (amax, tmax) = if honesty { (40.0, 0.30) } else { (3.0, 0.02) };
-                Case::A2 { shape, scale, pose, fracs, angle: a * amax, t: [t.0 * tmax, t.1 * tmax], guess: guess.map(|(ga, gt)| (ga * 2.0, [gt.0 * 0.01, gt.1 * 0.01])), honesty }
+                Case::A2 { shape, scale, pose, fracs, angle: a * amax, t: [t.0 * tmax, t.1 * tmax], guess: guess.map(|(ga, gt)| (ga * 2.0, [gt.0 * 0.01, gt.1 * 0.01])), honesty, at_solution }
             });
-        let a3 = (solid_kind(), iso3(50.0), prop::collection::vec((unif(0.0, 1.0), unif(0.0, 1.0), unif(0.0, 1.0)), 200..800), unit3(), any::<bool>(), unif(-1.0, 1.0), (unif(-1.0, 1.0), unif(-1.0, 1.0), unif(-1.0, 1.0)), prop::option::of((unit3(), unif(-1.0, 1.0), (unif(-1.0, 1.0), unif(-1.0, 1.0), unif(-1.0, 1.0)))), any::<bool>())
-            .prop_map(|(kind, pose, samples, axis, honesty, a, t, guess, to_plane)| {
+        let a3 = (solid_kind(), iso3(50.0), prop::collection::vec((unif(0.0, 1.0), unif(0.0, 1.0), unif(0.0, 1.0)), 200..800), unit3(), any::<bool>(), unif(-1.0, 1.0), (unif(-1.0, 1.0), unif(-1.0, 1.0), unif(-1.0, 1.0)), prop::option::of((unit3(), unif(-1.0, 1.0), (unif(-1.0, 1.0), unif(-1.0, 1.0), unif(-1.0, 1.0)))), any::<bool>(), prop::bool::weighted(0.04))
+            .prop_map(|(kind, pose, samples, axis, honesty, a, t, guess, to_plane, at_solution)| {
+                if at_solution {
+                    return Case::A3 { kind, pose, samples, axis, angle: 0.0, t: [0.0, 0.0, 0.0], guess: None, to_plane, honesty: false, at_solution };
+                }
                 let (amax, tmax) = if honesty { (40.0, 0.30) } else { (5.0, 0.03) };
-                Case::A3 { kind, pose, samples, axis, angle: a * amax, t: [t.0 * tmax, t.1 * tmax, t.2 * tmax], guess: guess.map(|(gx, ga, gt)| (gx, ga * 1.5, [gt.0 * 0.01, gt.1 * 0.01, gt.2 * 0.01])), to_plane, honesty }
+                Case::A3 { kind, pose, samples, axis, angle: a * amax, t: [t.0 * tmax, t.1 * tmax, t.2 * tmax], guess: guess.map(|(gx, ga, gt)| (gx, ga * 1.5, [gt.0 * 0.01, gt.1 * 0.01, gt.2 * 0.01])), to_plane, honesty, at_solution }
             });
         prop_oneof![3 => a2, 2 => a3].boxed()
     }
     fn check(case: &Case) -> Verdict {
         match case {
-            Case::A2 { shape, scale, pose, fracs, angle, t, guess, honesty } => align2(shape, *scale, pose, fracs, *angle, t, guess, *honesty),
-            Case::A3 { kind, pose, samples, axis, angle, t, guess, to_plane, honesty } => align3(kind, pose, samples, axis, *angle, t, guess, *to_plane, *honesty),
+            Case::A2 { shape, scale, pose, fracs, angle, t, guess, honesty, at_solution } => align2(shape, *scale, pose, fracs, *angle, t, guess, *honesty, *at_solution),
+            Case::A3 { kind, pose, samples, axis, angle, t, guess, to_plane, honesty, at_solution } => align3(kind, pose, samples, axis, *angle, t, guess, *to_plane, *honesty, *at_solution),
         }
     }
 }
@@ -94,7 +100,7 @@ fn polygon(shape: &Shape2) -> Vec<Point2> {
 }
 
 #[allow(clippy::too_many_arguments)]
-fn align2(shape: &Shape2, scale: f64, pose: &Iso2D, fracs: &[f64], angle_deg: f64, t: &P2, guess: &Option<(f64, P2)>, honesty: bool) -> Verdict {
+fn align2(shape: &Shape2, scale: f64, pose: &Iso2D, fracs: &[f64], angle_deg: f64, t: &P2, guess: &Option<(f64, P2)>, honesty: bool, at_solution: bool) -> Verdict {
     let mut cx = Ctx::new();
     cx.label(if honesty { "honest2" } else { "recover2" });
     let place = pose.to_iso();
@@ -110,8 +116,9 @@ fn align2(shape: &Shape2, scale: f64, pose: &Iso2D, fracs: &[f64], angle_deg: f6
     let model = Poly::new(pts.clone());
     let size = { let c = pts.iter().fold(Vector2::zeros(), |s, p| s + p.coords) / pts.len() as f64; pts.iter().map(|p| (p.coords - c).norm()).fold(0.0, f64::max) * 2.0 };
     let centroid = Point2::from(pts[..pts.len() - 1].iter().fold(Vector2::zeros(), |s, p| s + p.coords) / (pts.len() - 1) as f64);
-    let samples: Vec<Point2> = fracs.iter().map(|f| model.point_at(f * model.len())).collect();
-    if !honesty {
+    // "already aligned": the samples are the reference's own vertices, so every residual is exactly zero at the start
+    let samples: Vec<Point2> = if at_solution { cx.label("at_solution"); pts[..pts.len() - 1].to_vec() } else { fracs.iter().map(|f| model.point_at(f * model.len())).collect() };
+    if !honesty && !at_solution {
         // "all sample sets" means sets that fix all three degrees of freedom: the normal matrix of the point-to-line
         // problem at the true pose (rows [n, (p - centroid) x n / size]) must be well conditioned.  Uniformly drawn
         // fractions always are; shrinking and byte-level mutation can produce forty copies of one point.
@@ -221,7 +228,7 @@ fn align2(shape: &Shape2, scale: f64, pose: &Iso2D, fracs: &[f64], angle_deg: f6
 }
 
 #[allow(clippy::too_many_arguments)]
-fn align3(kind: &MeshKind, pose: &Iso3D, samples: &[(f64, f64, f64)], axis: &P3, angle_deg: f64, t: &P3, guess: &Option<(P3, f64, P3)>, to_plane: bool, honesty: bool) -> Verdict {
+fn align3(kind: &MeshKind, pose: &Iso3D, samples: &[(f64, f64, f64)], axis: &P3, angle_deg: f64, t: &P3, guess: &Option<(P3, f64, P3)>, to_plane: bool, honesty: bool, at_solution: bool) -> Verdict {
     let mut cx = Ctx::new();
     cx.label(if honesty { "honest3" } else { "recover3" });
     cx.label(if to_plane { "to_plane" } else { "to_point" });
@@ -252,7 +259,9 @@ fn align3(kind: &MeshKind, pose: &Iso3D, samples: &[(f64, f64, f64)], axis: &P3,
             Point3::from(a.coords * (1.0 - s) + b.coords * (s * (1.0 - r2)) + c.coords * (s * r2))
         })
         .collect();
-    if !honesty {
+    // "already aligned": the samples are the mesh's own vertices, so every residual is exactly zero at the start
+    let pts: Vec<Point3> = if at_solution { cx.label("at_solution"); mesh.vertices().to_vec() } else { pts };
+    if !honesty && !at_solution {
         // as in 2D: the 6x6 normal matrix of the point-to-plane problem at the true pose must be well conditioned
         let mut ata = parry3d_f64::na::Matrix6::<f64>::zeros();
         for p in &pts {
